@@ -23,6 +23,7 @@
 #include "stir/ArcCorrection.h"
 #include "stir/Sinogram.h"
 #include "stir/Bin.h"
+#include <cstdlib>
 #include <fstream>
 #include <numeric>
 #include <typeinfo>
@@ -957,7 +958,9 @@ run_case(Ctx& ctx)
 {
   vf::Rng& rng = ctx.rng;
   Cfg c;
-  const bool predefined = ctx.thorough() && (ctx.idx % 4 == 3);
+  // every 4th case on average; drawn from the case's own stream so that the (much larger) predefined scanners are spread evenly
+  // over the shards whatever the number of shards is (idx % 4 put all of them into the odd shards)
+  const bool predefined = ctx.thorough() && rng.coin(0.25);
   vg::ScannerSpec ss;
   vg::PdiSpec ps;
   std::vector<P3> written;
@@ -1126,7 +1129,23 @@ run_case(Ctx& ctx)
     for (int ax = p.get_min_axial_pos_num(seg); ax <= p.get_max_axial_pos_num(seg); ++ax)
       segax.push_back({ seg, ax });
   const long total = static_cast<long>(segax.size()) * c.nviews * ntang * ntof;
-  const long budget = ctx.thorough() ? 250000 : 60000;
+  // bins per configuration before striding; a stage can lower it (the asan flavour is 20-50x slower) through C12_BIN_BUDGET
+  long budget = ctx.thorough() ? 250000 : 60000;
+  if (const char* e = std::getenv("C12_BIN_BUDGET"))
+    if (std::atol(e) > 0)
+      budget = std::atol(e);
+  if (c.klass != CYL_ARC)
+    {
+      // the geometry check visits every contributing detector pair of a bin (view mashing x ring pairs of the axial compression:
+      // thousands for the large predefined scanners with few views and a large span): bound bins x pairs per configuration.
+      // (No effect below 40 detectors x 5 rings, i.e. on the quick tier.)
+      long max_ring_diffs = 1;
+      for (int seg = p.get_min_segment_num(); seg <= p.get_max_segment_num(); ++seg)
+        max_ring_diffs = std::max<long>(max_ring_diffs, c.cyl->get_max_ring_difference(seg) - c.cyl->get_min_ring_difference(seg) + 1);
+      const long pairs_per_bin = std::max<long>(1, c.mash) * ((max_ring_diffs + 1) / 2);
+      const long pair_budget = 10000000;
+      budget = std::min(budget, std::max<long>(2000, pair_budget / pairs_per_bin));
+    }
   const int stride = total <= budget ? 1 : coprime_stride((total + budget - 1) / budget, ntof, ntang, c.nviews);
   ctx.desc.add("bins_total", total);
   ctx.desc.add("stride", stride);
